@@ -92,10 +92,11 @@ type vsEv struct {
 	Speakers []int   `json:"speakers,omitempty"`
 }
 type vsHist struct {
-	Ignore   bool   `json:"ignore"`
-	Disabled bool   `json:"disabled"`
-	Speakers []int  `json:"speakers"`
-	Evs      []vsEv `json:"evs"`
+	Ignore     bool   `json:"ignore"`
+	Disabled   bool   `json:"disabled"`
+	Speakers   []int  `json:"speakers"`
+	SharedAddr bool   `json:"shared_peer_addr,omitempty"` // all BGP peers on one address (different port / VRF)
+	Evs        []vsEv `json:"evs"`
 }
 
 var vsSvcIPs = [][]string{
@@ -113,6 +114,11 @@ func vsAllIPs() []string {
 			m[net.ParseIP(s).String()] = true
 		}
 	}
+	for _, l := range vsElectAddrs {
+		for _, s := range l {
+			m[net.ParseIP(s).String()] = true
+		}
+	}
 	var r []string
 	for s := range m {
 		r = append(r, s)
@@ -123,7 +129,7 @@ func vsAllIPs() []string {
 
 func vsGenL2(r *rand.Rand, allowBadIf bool) []vsL2Adv {
 	var l []vsL2Adv
-	for n := r.Intn(3); n > 0; n-- {
+	for n := r.Intn(4); n > 0; n-- {
 		a := vsL2Adv{Nodes: []int{}, Ifs: []int{}}
 		for i := 0; i < 3; i++ {
 			if r.Intn(4) != 0 {
@@ -198,6 +204,49 @@ func vsGenSvc(r *rand.Rand) *vsSvc {
 	return s
 }
 
+
+// edits of a Service's address set that keep part of it
+func vsEditIPs(r *rand.Rand, ips []string) []string {
+	partner := func(ip string) string { // another address of the same pool
+		for _, l := range vsSvcIPs {
+			if len(l) == 2 && vsPoolIdx(&vsCfg{Pools: []vsPool{{CIDRs: []string{"10.20.30.0/24", "fc00:30::/64"}}, {CIDRs: []string{"10.20.31.0/24", "fc00:31::/64"}}}}, l) >= 0 {
+				if l[0] == ip {
+					return l[1]
+				}
+				if l[1] == ip {
+					return l[0]
+				}
+			}
+		}
+		return ""
+	}
+	switch len(ips) {
+	case 2:
+		switch r.Intn(5) {
+		case 0:
+			return []string{ips[0]}
+		case 1:
+			return []string{ips[1]}
+		case 2:
+			return []string{ips[1], ips[0]}
+		case 3:
+			if c := partner(ips[0]); c != "" && c != ips[1] {
+				return []string{ips[0], c}
+			}
+			return []string{ips[1]}
+		}
+		return []string{}
+	case 1:
+		if c := partner(ips[0]); c != "" {
+			if r.Intn(2) == 0 {
+				return []string{ips[0], c}
+			}
+			return []string{c, ips[0]}
+		}
+	}
+	return []string{}
+}
+
 func vsGenNode(r *rand.Rand, idx int) *vsNode {
 	return &vsNode{Idx: idx, Unavail: r.Intn(5) == 0, Excl: r.Intn(6) == 0, Labels: vbGenLabels(r), LblVal: r.Intn(4)}
 }
@@ -216,7 +265,7 @@ func vsGenSpk(r *rand.Rand) (bool, []int) {
 }
 
 func vsGenHist(r *rand.Rand) vsHist {
-	h := vsHist{Ignore: r.Intn(3) == 0}
+	h := vsHist{Ignore: r.Intn(3) == 0, SharedAddr: r.Intn(4) == 0}
 	// "labelled" histories: the speaker ignores the exclude label and every node carries it
 	// throughout; only the NetworkUnavailable condition of the nodes flips
 	labelled := h.Ignore && r.Intn(2) == 0
@@ -279,7 +328,7 @@ func vsGenHist(r *rand.Rand) vsHist {
 			var s *vsSvc
 			if last[k] != nil && r.Intn(2) == 0 { // small change of an existing service
 				c := *last[k]
-				switch r.Intn(6) {
+				switch r.Intn(7) {
 				case 0:
 					c.Eps = vsGenSvc(r).Eps
 				case 1:
@@ -287,10 +336,13 @@ func vsGenHist(r *rand.Rand) vsHist {
 				case 2:
 					c.LB = !c.LB // stops / starts being a LoadBalancer
 				case 3:
-					c.IPs = []string{} // loses its address
+					c.IPs = vsEditIPs(r, c.IPs) // {a,b}->{a} / {b} / reordered / {a,c}; {a}->{a,b}; or loses its address
 					c.Invalid = false
 				case 4:
 					c.Eps = nil // loses its endpoints
+				case 5:
+					c.IPs = vsEditIPs(r, c.IPs)
+					c.Invalid = false
 				default:
 					c.IPs = vsSvcIPs[r.Intn(len(vsSvcIPs))]
 					c.Invalid = false
@@ -449,6 +501,7 @@ type vsObs struct {
 	Sess map[int][]vbAd    `json:"sess"` // live sessions
 	AnnB map[int]bool      `json:"annb"`
 	AnnL map[int]bool      `json:"annl"`
+	Extra map[int][]string `json:"several_live_sessions,omitempty"` // peers with more than one live session
 }
 
 func vsIfIdx(s string) int {
@@ -487,6 +540,23 @@ func vsObserve(k *vsCtl) vsObs {
 	for nm, s := range live {
 		o.Sess[vbPeerIdx(nm)] = vbAdSet(s.ads)
 	}
+	// sessions are independent objects until closed: the multiset of live sessions per peer
+	cnt := map[int][]string{}
+	for _, s := range k.sm.sessions {
+		if !s.closed {
+			b, _ := json.Marshal(vbAdSet(s.ads))
+			cnt[vbPeerIdx(s.name)] = append(cnt[vbPeerIdx(s.name)], fmt.Sprintf("%s:%d vrf=%q %s", s.params.PeerAddress, s.params.PeerPort, s.params.VRFName, b))
+		}
+	}
+	for p, l := range cnt {
+		if len(l) > 1 {
+			sort.Strings(l)
+			if o.Extra == nil {
+				o.Extra = map[int][]string{}
+			}
+			o.Extra[p] = l
+		}
+	}
 	for i := 0; i < 4; i++ {
 		o.AnnB[i] = k.c.announced[config.BGP][vbSvcName(i)]
 		o.AnnL[i] = k.c.announced[config.Layer2][vbSvcName(i)]
@@ -495,7 +565,11 @@ func vsObserve(k *vsCtl) vsObs {
 }
 
 func vsAnnounced(o vsObs) string {
-	b, _ := json.Marshal(map[string]any{"l2": o.L2, "sess": o.Sess})
+	m := map[string]any{"l2": o.L2, "sess": o.Sess}
+	if len(o.Extra) > 0 {
+		m["several_live_sessions_for_one_peer"] = o.Extra
+	}
+	b, _ := json.Marshal(m)
 	return string(b)
 }
 
@@ -770,6 +844,8 @@ func vsF9Shape(w *vsWorld, got, want vsObs) bool {
 }
 
 func vsRunHistory(out *vOut, id int, kind string, h vsHist, r *rand.Rand) {
+	vbSharedPeerAddr = h.SharedAddr
+	defer func() { vbSharedPeerAddr = false }()
 	sl := &vsSL{disabled: h.Disabled, nodes: append([]int(nil), h.Speakers...)}
 	k := vsNewCtl(h.Ignore, sl)
 	defer k.a.VerifSpkClose()
@@ -779,6 +855,7 @@ func vsRunHistory(out *vOut, id int, kind string, h vsHist, r *rand.Rand) {
 	var done []vsEv
 	failed := false
 	failedElig := false
+	failedIfs := false
 	f9 := false
 	emit := func(e vsEv) vsObs {
 		o := vsObserve(k)
@@ -790,7 +867,7 @@ func vsRunHistory(out *vOut, id int, kind string, h vsHist, r *rand.Rand) {
 		if !failed {
 			failed = true
 			out.Fail(sig, fmt.Sprintf("after event %d: %s", len(done)-1, what),
-				map[string]any{"history": vsHist{Ignore: h.Ignore, Disabled: h.Disabled, Speakers: h.Speakers, Evs: done}, "observed": o, "fresh": want})
+				map[string]any{"history": vsHist{Ignore: h.Ignore, Disabled: h.Disabled, Speakers: h.Speakers, SharedAddr: h.SharedAddr, Evs: done}, "observed": o, "fresh": want})
 		}
 	}
 	for _, e := range h.Evs {
@@ -830,7 +907,7 @@ func vsRunHistory(out *vOut, id int, kind string, h vsHist, r *rand.Rand) {
 					failed = true
 					out.Fail("speaker-config-refused-without-orphan",
 						fmt.Sprintf("event %d: the configuration was refused although it orphans no address of an announced Service (the speaker stays on the old configuration)", len(done)),
-						map[string]any{"history": vsHist{Ignore: h.Ignore, Disabled: h.Disabled, Speakers: h.Speakers, Evs: append(append([]vsEv{}, done...), e)}})
+						map[string]any{"history": vsHist{Ignore: h.Ignore, Disabled: h.Disabled, Speakers: h.Speakers, SharedAddr: h.SharedAddr, Evs: append(append([]vsEv{}, done...), e)}})
 				}
 			default:
 				out.Stat("ev_cfg_other_return", 1) // no re-sync requested: the comparison with a fresh speaker decides
@@ -916,7 +993,7 @@ func vsRunHistory(out *vOut, id int, kind string, h vsHist, r *rand.Rand) {
 						out.Fail("speaker-first-node-event-no-resync",
 							fmt.Sprintf("after event %d (first event of node %d, no re-sync requested) the speaker announces %s, a fresh speaker %s; after a re-sync they agree",
 								len(done)-2, w.staleBy, vsAnnounced(o), vsAnnounced(want)),
-							map[string]any{"history": vsHist{Ignore: h.Ignore, Disabled: h.Disabled, Speakers: h.Speakers, Evs: done[:len(done)-1]}, "observed": o, "fresh": want})
+							map[string]any{"history": vsHist{Ignore: h.Ignore, Disabled: h.Disabled, Speakers: h.Speakers, SharedAddr: h.SharedAddr, Evs: done[:len(done)-1]}, "observed": o, "fresh": want})
 					}
 					continue
 				}
@@ -929,7 +1006,7 @@ func vsRunHistory(out *vOut, id int, kind string, h vsHist, r *rand.Rand) {
 					out.Fail("l2-stale-after-interface-mismatch",
 						fmt.Sprintf("after event %d the announcer holds %s, a fresh speaker %s (layer-2 advertisement interfaces no longer match a local interface: old announcement kept)",
 							len(done)-1, vsAnnounced(o), vsAnnounced(want)),
-						map[string]any{"history": vsHist{Ignore: h.Ignore, Disabled: h.Disabled, Speakers: h.Speakers, Evs: done}, "observed": o, "fresh": want})
+						map[string]any{"history": vsHist{Ignore: h.Ignore, Disabled: h.Disabled, Speakers: h.Speakers, SharedAddr: h.SharedAddr, Evs: done}, "observed": o, "fresh": want})
 				}
 			} else {
 				fail("speaker-announces-differ-from-fresh", fmt.Sprintf("speaker announces %s, a fresh speaker on the same state %s", vsAnnounced(o), vsAnnounced(want)), o, want)
@@ -999,12 +1076,74 @@ func vsRunHistory(out *vOut, id int, kind string, h vsHist, r *rand.Rand) {
 					out.Stat("elig_f18_hits", 1)
 					out.Fail("bgp-local-duplicate-address-across-nodes",
 						fmt.Sprintf("after event %d: peer %d is offered %s, the eligibility rule of the statement gives %s (Local policy, address served here has a non-serving entry on another node)", len(done)-1, pn, gb, wb),
-						map[string]any{"history": vsHist{Ignore: h.Ignore, Disabled: h.Disabled, Speakers: h.Speakers, Evs: done}})
+						map[string]any{"history": vsHist{Ignore: h.Ignore, Disabled: h.Disabled, Speakers: h.Speakers, SharedAddr: h.SharedAddr, Evs: done}})
 				} else {
 					failedElig = true
 					out.Fail("bgp-announced-state-differs-from-eligibility",
 						fmt.Sprintf("after event %d: peer %d is offered %s, but by the statement's eligibility rule (advertisement selects the node, not network-unavailable, not excluded unless ignored, endpoint rule) it must be offered %s", len(done)-1, pn, gb, wb),
-						map[string]any{"history": vsHist{Ignore: h.Ignore, Disabled: h.Disabled, Speakers: h.Speakers, Evs: done}, "observed": o})
+						map[string]any{"history": vsHist{Ignore: h.Ignore, Disabled: h.Disabled, Speakers: h.Speakers, SharedAddr: h.SharedAddr, Evs: done}, "observed": o})
+				}
+			}
+		}
+		// ---- oracle (C13 through the controller): the interfaces of every layer-2 entry are those of the
+		// advertisements of the address's pool that select THIS node (all interfaces if one of them is
+		// unrestricted, else the union of their lists).  Entries kept by F9 (the selecting advertisements
+		// match no local interface) are the recorded finding and are skipped.
+		if w.cfg != nil {
+			for n, ents := range o.L2 {
+				s := w.K[n]
+				if s == nil || s.Invalid || len(s.IPs) == 0 {
+					continue
+				}
+				pi := vsPoolIdx(w.cfg, s.IPs)
+				if pi < 0 {
+					continue
+				}
+				all, ifs, local := false, map[int]bool{}, false
+				for _, a := range w.cfg.Pools[pi].L2 {
+					me := false
+					for _, x := range a.Nodes {
+						if x == 0 {
+							me = true
+						}
+					}
+					if !me {
+						continue
+					}
+					if a.All {
+						all = true
+					}
+					for _, i := range a.Ifs {
+						ifs[i] = true
+					}
+				}
+				wantIfs := []int{}
+				if !all {
+					for i := range ifs {
+						wantIfs = append(wantIfs, i)
+						for _, l := range vsLocalIfs {
+							if l == i {
+								local = true
+							}
+						}
+					}
+					sort.Ints(wantIfs)
+				}
+				if !all && !local {
+					continue // F9 shape
+				}
+				for _, en := range ents {
+					out.Stat("l2_interface_checks", 1)
+					if !all {
+						out.Stat("l2_interface_checks_with_lists", 1)
+					}
+					if (en.All != all || fmt.Sprint(en.Ifs) != fmt.Sprint(wantIfs)) && !failedIfs {
+						failedIfs = true
+						out.Fail("l2-entry-interfaces-differ-from-advertisements",
+							fmt.Sprintf("after event %d: s%d %s is announced on (all=%v, interfaces %v), the advertisements selecting this node say (all=%v, interfaces %v)",
+								len(done)-1, n, en.IP, en.All, en.Ifs, all, wantIfs),
+							map[string]any{"history": vsHist{Ignore: h.Ignore, Disabled: h.Disabled, Speakers: h.Speakers, SharedAddr: h.SharedAddr, Evs: done}})
+					}
 				}
 			}
 		}
@@ -1068,10 +1207,26 @@ func vsElectCfg(r *rand.Rand) *vsCfg {
 	return c
 }
 
-var vsElectIPs = []string{"10.20.30.1", "10.20.30.2", "10.20.30.200", "10.20.31.1", "10.20.31.2", "fc00:30::1", "fc00:31::1"}
+// the addresses of service k in the election histories (no address is shared between services: F8)
+var vsElectAddrs = [][]string{
+	{"10.20.30.1", "fc00:30::1", "10.20.30.11"},
+	{"10.20.30.2", "fc00:30::2", "10.20.30.12"},
+	{"10.20.31.1", "fc00:31::1", "10.20.31.11"},
+}
+var vsElectIPs = []string{"10.20.30.1", "10.20.30.2", "10.20.30.11", "10.20.30.12", "10.20.31.1", "10.20.31.11", "fc00:30::1", "fc00:30::2", "fc00:31::1"}
 
-func vsElectSvc(r *rand.Rand) *vsSvc {
-	s := &vsSvc{LB: true, Local: r.Intn(3) == 0, IPs: []string{vsElectIPs[r.Intn(len(vsElectIPs))]}}
+// one or two distinct addresses of service k, in any order
+func vsElectIPsOf(r *rand.Rand, k int) []string {
+	a := vsElectAddrs[k]
+	p := r.Perm(3)
+	if r.Intn(2) == 0 {
+		return []string{a[p[0]]}
+	}
+	return []string{a[p[0]], a[p[1]]}
+}
+
+func vsElectSvc(r *rand.Rand, k int) *vsSvc {
+	s := &vsSvc{LB: true, Local: r.Intn(3) == 0, IPs: vsElectIPsOf(r, k)}
 	T := true
 	for ne := 1 + r.Intn(3); ne > 0; ne-- {
 		s.Eps = append(s.Eps, []vbEP{{Ready: &T, Node: r.Intn(3), Addrs: []int{1 + r.Intn(2)}}})
@@ -1097,7 +1252,7 @@ func vsGenElectHist(r *rand.Rand) vsHist {
 	h.Evs = append(h.Evs, vsEv{Op: "cfg", Cfg: vsElectCfg(r)})
 	var last [4]*vsSvc
 	for k := 0; k < 3; k++ {
-		last[k] = vsElectSvc(r)
+		last[k] = vsElectSvc(r, k)
 		h.Evs = append(h.Evs, vsEv{Op: "svc", Name: k, Svc: last[k]})
 	}
 	flip := func(idx int) {
@@ -1119,8 +1274,13 @@ func vsGenElectHist(r *rand.Rand) vsHist {
 			flip(0)
 		case x < 80: // a service event (the same service again, or changed)
 			k := r.Intn(3)
-			if r.Intn(2) == 0 {
-				last[k] = vsElectSvc(r)
+			switch r.Intn(3) {
+			case 0:
+				last[k] = vsElectSvc(r, k)
+			case 1: // only the address set changes: shrinks, grows, is reordered, swaps one address
+				c := *last[k]
+				c.IPs = vsElectIPsOf(r, k)
+				last[k] = &c
 			}
 			h.Evs = append(h.Evs, vsEv{Op: "svc", Name: k, Svc: last[k]})
 		case x < 86:
@@ -1265,14 +1425,24 @@ func vsRunMulti(out *vOut, kind string, h vsHist, r *rand.Rand) {
 		if w.cfg == nil {
 			continue
 		}
-		// ---- C04 at quiescence
-		for n, s := range w.K {
-			var ann []int
-			for i, k := range ks {
-				if _, ok := k.a.VerifSpkDump()[vbSvcName(n)]; ok {
-					ann = append(ann, i)
+		// ---- C04 at quiescence, per ADDRESS: every address answered by some node is held by a Service of
+		// the current view and answered exactly by that Service's elected node; an address of a Service with
+		// an eligible node is answered; nothing else is
+		got := map[string][]int{} // address -> nodes whose announcer holds it (under any service)
+		for i, k := range ks {
+			seen := map[string]bool{}
+			for _, ents := range k.a.VerifSpkDump() {
+				for _, en := range ents {
+					if !seen[en.IP] {
+						seen[en.IP] = true
+						got[en.IP] = append(got[en.IP], i)
+					}
 				}
 			}
+		}
+		want := map[string][]int{}
+		holder := map[string]int{}
+		for n, s := range w.K {
 			var elig []int
 			pi := -1
 			if s.LB && !s.Invalid && len(s.IPs) > 0 {
@@ -1315,7 +1485,6 @@ func vsRunMulti(out *vOut, kind string, h vsHist, r *rand.Rand) {
 					}
 				}
 			}
-			want := []int{}
 			if len(elig) > 0 {
 				best, bh := -1, ""
 				for _, i := range elig {
@@ -1324,22 +1493,43 @@ func vsRunMulti(out *vOut, kind string, h vsHist, r *rand.Rand) {
 						best, bh = i, string(d[:])
 					}
 				}
-				want = []int{best}
+				for _, ip := range s.IPs {
+					c := net.ParseIP(ip).String()
+					want[c] = []int{best}
+					holder[c] = n
+				}
 				out.Stat("multi_elections", 1)
 				if len(elig) > 1 {
 					out.Stat("multi_contested_elections", 1)
 				}
+				if len(s.IPs) > 1 {
+					out.Stat("multi_dual_address_services", 1)
+				}
 			}
 			out.Stat("multi_service_checks", 1)
-			if fmt.Sprint(ann) != fmt.Sprint(want) && !failed {
+		}
+		addrs := map[string]bool{}
+		for a := range got {
+			addrs[a] = true
+		}
+		for a := range want {
+			addrs[a] = true
+		}
+		for a := range addrs {
+			out.Stat("multi_address_checks", 1)
+			if fmt.Sprint(got[a]) != fmt.Sprint(want[a]) && !failed {
 				failed = true
 				sig := "l2-announcers-differ-from-election"
-				if len(ann) > 1 {
+				if len(got[a]) > 1 {
 					sig = "l2-two-announcers-after-node-flip"
 				}
-				out.Fail(sig, fmt.Sprintf("several speakers, after event %d (%s): service s%d (%v) is announced over layer 2 by nodes %v; eligible nodes %v, elected %v",
-					len(done)-1, e.Op, n, s.IPs, ann, elig, want),
-					map[string]any{"multi_history": vsHist{Ignore: h.Ignore, Disabled: h.Disabled, Speakers: h.Speakers, Evs: done}})
+				hs := "no Service of the current view holds it"
+				if n, ok := holder[a]; ok {
+					hs = fmt.Sprintf("held by s%d %v, elected %v", n, w.K[n].IPs, want[a])
+				}
+				out.Fail(sig, fmt.Sprintf("several speakers, after event %d (%s): address %s is answered over layer 2 by nodes %v; %s",
+					len(done)-1, e.Op, a, got[a], hs),
+					map[string]any{"multi_history": vsHist{Ignore: h.Ignore, Disabled: h.Disabled, Speakers: h.Speakers, SharedAddr: h.SharedAddr, Evs: done}})
 			}
 		}
 	}
@@ -1433,6 +1623,48 @@ func TestVerifSpk(t *testing.T) {
 	}}
 	id++
 	vsRunHistory(out, id, "corpus-labelled-node-network-flips", labelledHist, r)
+	// the address set of a Service shrinks, is reordered, grows, swaps one address
+	svcIPs := func(ips ...string) *vsSvc { return &vsSvc{LB: true, IPs: ips, Eps: eps} }
+	dualPool := &vsCfg{Pools: []vsPool{{CIDRs: []string{"10.20.30.0/24", "fc00:30::/64"}, BGP: bgpAdv, L2: all}}, Peers: []vbPeer{{Name: 0, Sels: [][][2]int{}}}}
+	edits := vsHist{Speakers: []int{0}, Evs: []vsEv{
+		{Op: "node", Node: &vsNode{Idx: 0}}, {Op: "cfg", Cfg: dualPool},
+		{Op: "svc", Name: 0, Svc: svcIPs("10.20.30.1", "fc00:30::1")},
+		{Op: "svc", Name: 0, Svc: svcIPs("10.20.30.1")},
+		{Op: "svc", Name: 0, Svc: svcIPs("10.20.30.1", "fc00:30::1")},
+		{Op: "svc", Name: 0, Svc: svcIPs("fc00:30::1")},
+		{Op: "svc", Name: 0, Svc: svcIPs("fc00:30::1", "10.20.30.2")},
+		{Op: "svc", Name: 0, Svc: svcIPs("10.20.30.2", "fc00:30::1")},
+		{Op: "svc", Name: 0, Svc: svcIPs("10.20.30.2", "10.20.30.200")},
+		{Op: "svc", Name: 1, Svc: svcIPs("fc00:30::1")},
+	}}
+	id++
+	vsRunHistory(out, id, "corpus-address-set-edits", edits, r)
+	// all BGP peers on one address (different port / VRF): configurations add, change and drop them
+	onePeer := func(ps ...vbPeer) *vsCfg { return &vsCfg{Pools: dualPool.Pools, Peers: ps} }
+	shared := vsHist{Speakers: []int{0}, SharedAddr: true, Evs: []vsEv{
+		{Op: "node", Node: &vsNode{Idx: 0}},
+		{Op: "cfg", Cfg: onePeer(vbPeer{Name: 0, Sels: [][][2]int{}}, vbPeer{Name: 1, Sels: [][][2]int{}})},
+		{Op: "svc", Name: 0, Svc: svcIPs("10.20.30.1")},
+		{Op: "cfg", Cfg: onePeer(vbPeer{Name: 0, Sels: [][][2]int{}}, vbPeer{Name: 1, Sels: [][][2]int{}}, vbPeer{Name: 2, Sels: [][][2]int{}})},
+		{Op: "cfg", Cfg: onePeer(vbPeer{Name: 0, Sels: [][][2]int{}, Attr: 1}, vbPeer{Name: 1, Sels: [][][2]int{}}, vbPeer{Name: 2, Sels: [][][2]int{}})},
+		{Op: "svc", Name: 0, Svc: nil},
+		{Op: "cfg", Cfg: onePeer(vbPeer{Name: 1, Sels: [][][2]int{}})},
+	}}
+	shared.Evs[5] = vsEv{Op: "del", Name: 0}
+	id++
+	vsRunHistory(out, id, "corpus-peers-sharing-an-address", shared, r)
+	// several layer-2 advertisements of one pool with different node selections and interface lists
+	mixed := func(l2 ...vsL2Adv) *vsCfg { return &vsCfg{Pools: []vsPool{{CIDRs: []string{"10.20.30.0/24"}, L2: l2}}} }
+	ifsHist := vsHist{Speakers: []int{0}, Evs: []vsEv{
+		{Op: "node", Node: &vsNode{Idx: 0}},
+		{Op: "cfg", Cfg: mixed(vsL2Adv{Nodes: []int{1, 2}, All: true}, vsL2Adv{Nodes: []int{0}, Ifs: []int{1}})},
+		{Op: "svc", Name: 0, Svc: svcIPs("10.20.30.1")},
+		{Op: "cfg", Cfg: mixed(vsL2Adv{Nodes: []int{0}, Ifs: []int{0}}, vsL2Adv{Nodes: []int{1}, Ifs: []int{1}}, vsL2Adv{Nodes: []int{0, 2}, Ifs: []int{1, 0}})},
+		{Op: "cfg", Cfg: mixed(vsL2Adv{Nodes: []int{0}, Ifs: []int{0}}, vsL2Adv{Nodes: []int{0, 1}, All: true})},
+		{Op: "cfg", Cfg: mixed(vsL2Adv{Nodes: []int{2}, All: true}, vsL2Adv{Nodes: []int{0, 1}, Ifs: []int{0}})},
+	}}
+	id++
+	vsRunHistory(out, id, "corpus-advertisements-with-different-selectors", ifsHist, r)
 	// a configuration that orphans an announced address is refused, then the address changes and it is accepted
 	refuse := vsHist{Speakers: []int{0}, Evs: []vsEv{
 		{Op: "node", Node: &vsNode{Idx: 0}},
